@@ -189,7 +189,7 @@ REGISTRY = {
     },
     "C09": {
         "rules": [
-            registries.rule_compress_registry_1d, registries.rule_full_span, registries.rule_centre_shift,
+            registries.rule_compress_registry_1d, registries.rule_full_span, registries.rule_centre_shift, exponent.rule_sum_exponents,
             P(dmrg.rule_sweep_memory, sites=[("quimb.tensor.tn1d.compress", "tensor_network_1d_compress_fit", ("f_sweep",), "prepare")], rule="sweep-memory[fit]"),
             P(optflow.rule_option_delivery, opts=("max_bond", "cutoff"), modules=("quimb.tensor.tn1d",), rule="cap-delivery[1d]", floor=40),
             P(registries.rule_mode_total, specs=[
@@ -304,7 +304,7 @@ REGISTRY = {
         "assumptions": COMMON_ASSUMPTIONS,
     },
     "C01": {
-        "rules": [exponent.rule_partial_contraction_inds, exponent.rule_linop_dtype, exponent.rule_exp_drop, exponent.rule_exp_flow, exponent.rule_exp_combine, exponent.rule_linop,
+        "rules": [exponent.rule_partial_contraction_inds, exponent.rule_linop_dtype, exponent.rule_sum_exponents, exponent.rule_exp_drop, exponent.rule_exp_flow, exponent.rule_exp_combine, exponent.rule_linop,
                   exponent.rule_carrier_derivation, exponent.rule_hyper_count],
         "explanation": (
             "static (AST def-use flag closure): decides exponent accounting — every evaluator that turns tensors "
